@@ -23,7 +23,7 @@ FILES = [
     "lerax/env/classic_control/pendulum.py", "lerax/env/classic_control/cartpole.py", "lerax/env/mujoco/ant.py", "lerax/env/mujoco/humanoid.py", "lerax/env/mujoco/hopper.py",
 ]
 PROPS_OF = {
-    "lerax/buffer/rollout.py": ["C03", "C09"], "lerax/buffer/replay.py": ["C06"], "lerax/buffer/base_buffer.py": ["C09", "C06"],
+    "lerax/buffer/rollout.py": ["C03", "C09"], "lerax/buffer/replay.py": ["C06", "C07"], "lerax/buffer/base_buffer.py": ["C09", "C06"],
     "lerax/algorithm/ppo.py": ["C08", "C09"], "lerax/algorithm/a2c.py": ["C08"], "lerax/algorithm/reinforce.py": ["C08"],
     "lerax/algorithm/dqn.py": ["C07", "C10", "C11", "C12"], "lerax/algorithm/sac.py": ["C07", "C10", "C11", "C12"],
     "lerax/algorithm/on_policy.py": ["C03", "C04", "C08", "C10", "C19", "C11", "C12"], "lerax/algorithm/off_policy.py": ["C05", "C07", "C10", "C19", "C11", "C12"],
